@@ -183,6 +183,34 @@ def run(ctx):
     ctx.rule("C06.R4", "parse_json_inputs inserts every (key, value) of an input object: the insert is conditional only on the Ok of the value conversion, keyed by the member's own key", floor=1)
     member_insert_rule(ctx, cli, "C06.R4")
 
+    # ---- R10 every member of a list / record makes the trip; data is never refused
+    ctx.rule("C06.R10", "the conversions between values and JSON map every member under its own key (no filter / skip / take on the members, no intermediate map keyed by anything but the key string), and the portability check that runs before emission refuses only functions: its data arms (list, record, scalar) construct no error of their own", floor=5)
+    DROPS = {"filter", "filter_map", "skip", "skip_while", "take", "take_while", "step_by", "dedup", "dedup_by_key", "retain", "truncate", "pop", "remove", "swap_remove", "shift_remove", "flatten"}
+    for fn_ in ("from_json", "to_json", "from_value", "to_value", "to_serializable_value"):
+        cands = [n_ for n_ in core.hir if n_.endswith("Value::" + fn_) and core.hir[n_].get("body") is not None]
+        for full in sorted(cands):
+            fb = core.hir_fn(full)
+            drops = sorted({"%s at %s" % (x["name"], H.loc(x)) for x in H.walk(fb["body"]) if H.kind(x) == "MethodCall" and x["name"] in DROPS and "pest::iterators" not in (x.get("recv_ty") or x["recv"].get("ty") or "") and "pest::iterators" not in (x.get("ty") or "")})
+            odd_maps = sorted({(x.get("ty") or "")[:80] for x in H.walk(fb["body"]) if isinstance(x, dict) and re.search(r"(BTreeMap|HashMap|IndexMap)<(?!alloc::string::String|&str|&alloc::string::String)", (x.get("ty") or "")) and H.kind(x) in ("Call", "MethodCall", "Path")})
+            ctx.inst("C06.R10", "%s#all-members" % full.replace("blots_core::", ""), not drops and not odd_maps, "adapters that can drop members: %s; maps keyed by something other than the key string: %s" % (drops or "none", odd_maps or "none"), H.loc(fb["body"]))
+    vp = core.hir.get("blots_core::expressions::validate_portable_value")
+    if vp is None or vp.get("body") is None:
+        ctx.inst("C06.R10", "validate_portable_value#data-arms", None, "validate_portable_value not found", None)
+    else:
+        vpi = core.hir_fn("blots_core::expressions::validate_portable_value")
+        mm_ = H.main_match(vpi["body"], "values::Value") or next(iter(H.matches_on(vpi["body"], "values::Value")), None)
+        bad_ = []
+        n_arms = 0
+        for a_ in (mm_["arms"] if mm_ else []):
+            vs_ = {H.last(v_) for v_ in H.pat_variants(a_["pat"])}
+            if "Lambda" in vs_ or "BuiltIn" in vs_:
+                continue
+            n_arms += 1
+            errs = [x for x in H.walk(a_["body"]) if (H.kind(x) == "Macro" and x.get("name") in ("anyhow", "bail", "format_err")) or (H.kind(x) == "Call" and H.last((H.strip(x["f"]).get("res") or {}).get("def") or x.get("def") or "") == "Err")]
+            if errs:
+                bad_.append("%s: %s" % (sorted(vs_), H.loc(errs[0])))
+        ctx.inst("C06.R10", "validate_portable_value#data-arms", (not bad_) if n_arms else None, "data arms examined: %d; arms that can refuse a data value: %s" % (n_arms, bad_ or "none"), H.loc(vpi["body"]))
+
     # ---- R9 the JSON text is what serde_json wrote / what the user supplied
     json_text_rule(ctx, "C06.R9", [ctx.cli, ctx.wasm, core])
 
